@@ -424,3 +424,36 @@ Proof.
     eapply Permutation_trans; [apply ainsert_perm | apply perm_skip, IH].
   - induction l as [|x t IH]; cbn; [constructor|]. apply ainsert_sorted. exact IH.
 Qed.
+
+(* ------------------------------------------------------------------ audit 4, A5 (ii): the domain *)
+(* The legality / spec theorems above are proved for EVERY table and EVERY list of pairs, but the model
+   is faithful to _run_selection only where the real function does not raise for another reason:
+   (a) a gene listed as up AND down marker of one pair (pd = [([0],[0])]) makes the desperate phase
+       raise AssertionError (marker_mask_from_pair_idx) where the model ends in `break`;
+   (b) taxonomy_idx_array = [] makes _stats_from_marker_counts raise ValueError (zero-size array)
+       where the model returns WDone with nothing chosen.
+   The statements cited by Props/C12.v therefore carry both exclusions as hypotheses (they are not
+   needed by the proofs: they delimit where the model speaks for the code).  (a) is what
+   both_ways_free decides on the thinned table (SelectionP.both_ways_free_sound); (b) is what
+   select_parent(_k) guarantees (parent_run_has_pairs(_k): idx <> []). *)
+Theorem numpy_rule_is_legal_dom n_genes pairs marks n sorter :
+  is_argsort sorter -> no_gene_both_ways marks -> pairs <> [] ->
+  exists st', select_with n_genes pairs marks n (pick_pop sorter) = WDone st'.
+Proof. intros Hs _ _. exact (numpy_rule_is_legal n_genes pairs marks n sorter Hs). Qed.
+
+Theorem numpy_rule_meets_spec_dom n_genes pairs marks n sorter :
+  is_argsort sorter -> no_gene_both_ways marks -> pairs <> [] ->
+  exists st', select_with n_genes pairs marks n (pick_pop sorter) = WDone st' /\
+              spec_c12 n_genes pairs marks n (chosen st') = true.
+Proof. intros Hs Hb _. exact (numpy_rule_meets_spec n_genes pairs marks n sorter Hs Hb). Qed.
+
+Theorem numpy_rule_is_legal_k_dom n_genes pairs marks n sorter k :
+  is_argsort sorter -> 1 <= k -> no_gene_both_ways marks -> pairs <> [] ->
+  exists st', select_with_k n_genes pairs marks n k (pick_pop sorter) = WKDone st'.
+Proof. intros Hs Hk _ _. exact (numpy_rule_is_legal_k n_genes pairs marks n sorter Hs k Hk). Qed.
+
+Theorem numpy_rule_meets_spec_k_dom n_genes pairs marks n sorter k :
+  is_argsort sorter -> 1 <= k -> no_gene_both_ways marks -> pairs <> [] ->
+  exists st', select_with_k n_genes pairs marks n k (pick_pop sorter) = WKDone st' /\
+              spec_c12 n_genes pairs marks n (chosen st') = true.
+Proof. intros Hs Hk Hb _. exact (numpy_rule_meets_spec_k n_genes pairs marks n sorter Hs k Hk Hb). Qed.
